@@ -5,7 +5,7 @@
 // vtool --log F --id ID --key 'text' [--follow] [--reads a b ..] [--outs x y ..] [--depfile d] [--msvc]
 //       [--rsp r] [--restat] [--early] [--atomic] [--exit N] [--sleep-before MS] [--sleep-after MS]
 //       [--wait-for PATH] [--announce PATH] [--say TEXT]... [--say-err TEXT]... [--chunk-delay MS]
-//       [--fail-if-exists PATH] [--kill-self SIG] [--dyndep-for out0:src,...] [--pidfile PATH]
+//       [--fail-if-exists PATH] [--kill-self SIG] [--dyndep-for out0:src,...] [--pidfile PATH] [--ignore-signals]
 #include <errno.h>
 #include <fcntl.h>
 #include <signal.h>
@@ -127,6 +127,9 @@ int main(int argc, char** argv) {
     else if (a == "--fail-if-exists") { fail_if_exists = next(); cur = nullptr; }
     else if (a == "--kill-self") { kill_self = atoi(next().c_str()); cur = nullptr; }
     else if (a == "--pidfile") { pidfile = next(); cur = nullptr; }
+    else if (a == "--ignore-signals") {       // a tool that finishes what it is doing whatever the terminal sends
+      signal(SIGINT, SIG_IGN); signal(SIGTERM, SIG_IGN); signal(SIGHUP, SIG_IGN); cur = nullptr;
+    }
     else if (a == "--say-hex") { says.push_back(Unhex(next())); cur = nullptr; }
     else if (a == "--say-err-hex") { says_err.push_back(Unhex(next())); cur = nullptr; }
     else if (a == "--say-big") { say_big = next(); cur = nullptr; }     // TAG:NLINES, one write() right before the end
